@@ -3,6 +3,7 @@ import Dmn.Lemmas.DecFinalize
 import Dmn.Lemmas.DecDiv
 import Dmn.Lemmas.DecIntegral
 import Dmn.Lemmas.DecSqrt
+import Dmn.Lemmas.DecParity
 
 /-!
 # C02 — FEEL numbers compute as IEEE 754-2008 decimal128 (34 digits, half-even)
@@ -258,56 +259,20 @@ theorem modulo_spec (a b : D128R) :
 
 example : FNum.modulo (.fin ⟨true, 12, 0⟩) (.fin ⟨false, 5, 0⟩) = .fin ⟨false, 3, 0⟩ := by decide
 
--- FULL STATEMENT (not provable of the current code, findings F21 and F22):
---   theorem odd_even_spec (a : D128) (hwf : WF a) :
---     FNum.odd (.fin a) = (match toInt? a with | some i => i % 2 == 1 | none => false) ∧
---     FNum.even (.fin a) = (match toInt? a with | some i => i % 2 == 0 | none => false)
+/-- `odd` and `even` speak about the value, whatever the exponent (after fix 5501a2e, which
+repaired F21 `even(1E+40) = false` and F22 `odd(1.0) = false`): `odd a` iff the value is an odd
+integer, `even a` iff it is an even integer -/
+theorem odd_even_spec (a : D128) (hwf : WF a) :
+    FNum.odd (.fin a) = (match toInt? a with | some i => i % 2 == 1 | none => false) ∧
+    FNum.even (.fin a) = (match toInt? a with | some i => i % 2 == 0 | none => false) :=
+  odd_even_value a hwf
 
-/-- for integers written with exponent 0, `odd` and `even` test the parity of the coefficient -/
-theorem odd_even_spec_partial (a : D128) (hwf : WF a) (h0 : a.exp = 0) :
-    FNum.odd (.fin a) = decide (a.coeff % 2 = 1) ∧ FNum.even (.fin a) = decide (a.coeff % 2 = 0) := by
-  obtain ⟨hc, _, _⟩ := hwf
-  have hrem : (D128.remainder a ⟨false, 2, 0⟩).isZero = decide (a.coeff % 2 = 0) := by
-    unfold D128.remainder
-    simp only []
-    rw [if_neg (by decide), h0]
-    have hmin : min (0 : Int) 0 = 0 := rfl
-    rw [hmin]
-    have h1 : ((0 : Int) - 0).toNat = 0 := rfl
-    rw [h1]
-    simp only [Nat.pow_zero, Nat.mul_one]
-    by_cases hz : a.coeff = 0
-    · rw [if_pos hz, hz]; rfl
-    · rw [if_neg hz]
-      have hd : ¬ ndigits (a.coeff / 2) > 34 := by
-        have : a.coeff / 2 < 10 ^ 34 := by omega
-        have := ndigits_le_of_lt _ 34 this
-        omega
-      rw [if_neg hd]
-      by_cases hp : a.coeff % 2 = 0
-      · rw [hp, finalize_zero]
-        simp [D128R.isZero, hp]
-      · have h1 : a.coeff % 2 = 1 := by omega
-        rw [h1, finalize_exact _ 1 0 (by decide) (by decide) (by decide) (by decide)]
-        simp [D128R.isZero]
-  unfold FNum.odd FNum.even
-  simp only [hrem, D128.isInteger, h0]
-  constructor
-  · by_cases hp : a.coeff % 2 = 0
-    · simp [hp]
-    · have : a.coeff % 2 = 1 := by omega
-      simp [this]
-  · trivial
+example : WF ⟨false, 10, -1⟩ ∧ FNum.odd (.fin ⟨false, 10, -1⟩) = true ∧
+    FNum.even (.fin ⟨false, 1, 40⟩) = true ∧ FNum.odd (.fin ⟨true, 25, -1⟩) = false := by decide
 
-example : WF ⟨true, 7, 0⟩ := by decide
-
-/-- F22 witness: `odd(1.0)` is false although `1.0 = 1` is odd -/
-theorem odd_counterexample :
-    FNum.odd (.fin ⟨false, 10, -1⟩) = false ∧ D128.toInt? ⟨false, 10, -1⟩ = some 1 := by decide
-
-/-- F21 witness: `even(1E+40)` is false (the remainder is NaN: Division impossible) -/
-theorem even_counterexample :
-    FNum.even (.fin ⟨false, 1, 40⟩) = false ∧ D128.remainder ⟨false, 1, 40⟩ ⟨false, 2, 0⟩ = .nan := by decide
+/-- `is_integer` holds exactly when the value is an integer (`1.0` and `1E+2` are) -/
+theorem is_integer_spec (a : D128) : FNum.isInteger (.fin a) = (toInt? a).isSome :=
+  isInteger_spec a
 
 /-! ## no infinite / NaN results at the FEEL level -/
 
